@@ -11,6 +11,8 @@
 //   S sid schema     create session, select schema
 //   K sid keys       simulate_key_sequence
 //   P sid r          select candidate number r mod min(count, 12) of the current menu
+//   Q sid r          select the r-th candidate (mod their number, among the first 1500) that does
+//                    NOT cover the whole input - a partial selection
 //   X sid r          delete candidate number r mod min(count, 12)
 //   F sid            press space until nothing is being composed (at most 8 times)
 //   C sid            commit_composition
@@ -23,6 +25,10 @@
 #include <rime/common.h>
 #include <rime/deployer.h>
 #include <rime/service.h>
+#include <rime/candidate.h>
+#include <rime/composition.h>
+#include <rime/context.h>
+#include <rime/menu.h>
 #include <rime/dict/db.h>
 #include <rime/dict/user_db.h>
 #include <rime/dict/user_dictionary.h>
@@ -239,6 +245,30 @@ static int do_run(int argc, char** argv) {
       else
         api->delete_candidate(s, i);
       observe(cmd == "P" ? "P+" : "X+", s);
+    } else if (cmd == "Q") {
+      unsigned long r = 0;
+      is >> r;
+      std::vector<size_t> partial;
+      auto session = rime::Service::instance().GetSession(s);
+      rime::Context* ctx = session ? session->context() : nullptr;
+      if (ctx && ctx->HasMenu()) {
+        auto& seg = ctx->composition().back();
+        size_t n = seg.menu->Prepare(1500);
+        for (size_t i = 0; i < n; ++i) {
+          auto cand = seg.menu->GetCandidateAt(i);
+          if (cand && cand->end() < ctx->input().length())
+            partial.push_back(i);
+        }
+      }
+      if (partial.empty()) {
+        printf("Q nopartial\n");
+        continue;
+      }
+      size_t i = partial[r % partial.size()];
+      auto cands = candidates(s, i + 1);
+      printf("Q index=%zu text=%s\n", i, i < cands.size() ? hex(cands[i]).c_str() : "?");
+      api->select_candidate(s, i);
+      observe("Q+", s);
     } else if (cmd == "F") {
       for (int n = 0; n < 8; ++n) {
         const char* in = api->get_input(s);
